@@ -30,11 +30,17 @@ def case_shape(beh):
 
 def select_cases(behs, seed, quick):
     """quick tier: every case with at most one setting source, every canonical two-source case, and seeded
-    samples of the rest; thorough: everything the generator produced."""
+    samples of the rest; thorough: see below."""
     behs = sorted(behs, key=lambda b: json.dumps(b, sort_keys=True))
-    if not quick:
-        return behs
     rnd = random.Random(seed)
+    if not quick:
+        # all canonical assignments (5^6), all cases with at most two setting sources, and a seeded quarter of
+        # the three-source cases with an alternative spelling / two case-variant keys (15 000 of them)
+        keep, rest = [], []
+        for b in behs:
+            nset, nalt, dup = case_shape(b)
+            (keep if (nalt == 0 or nset <= 2) else rest).append(b)
+        return keep + rnd.sample(rest, len(rest) // 4)
     keep, alt2, three = [], [], []
     for b in behs:
         nset, nalt, dup = case_shape(b)
@@ -150,7 +156,7 @@ def run(ctx):
         ctx.cov["states"] += g.distinct
         ctx.cov["transitions"] += g.generated
         ctx.notes["behaviour_generator"] = {"module": "Gen_Config", "cases_generated": len(g.behaviours), "cases_used": len(behs)}
-        params, n_random = ("reps", 200) if quick else ("all", 4000)
+        params, n_random = ("reps", 200) if quick else ("all", 2000)
         log("generated %d cases, using %d" % (len(g.behaviours), len(behs)))
     json.dump(behs, open(beh_path, "w"))
     ctx.sample({"case": behs[min(len(behs) - 1, 7)]})
